@@ -4,7 +4,10 @@
 //       n variables v0..v(n-1); variable k lives in component c_k (all components are children of
 //       the model).  layout V: every variable gets units/interface so that the model can be valid,
 //       and every third variable an equation, so that Analyser::analyseModel really runs and fills
-//       the AnalyserModel cache on its own before the queries; layout I: bare variables.
+//       the AnalyserModel cache on its own before the queries; layout J: bare variables (invalid
+//       model), Analyser::analyseModel is still called; layout I: bare variables, the AnalyserModel
+//       is the one a fresh Analyser holds (Validator::validateModel takes exponential time on dense
+//       equivalence networks inside one component, so large invalid models are not analysed).
 //       ops: comma separated, "a-b" = Variable::addEquivalence(va, vb), "xK" = destroy variable K
 //       (removed from its component, last shared_ptr dropped); "-" = none.
 //       queries: comma separated "a:b"; each is asked through Variable::hasEquivalentVariable(.., true),
@@ -116,7 +119,9 @@ static std::string graphCase(const std::vector<std::string> &f)
         }
     }
     auto analyser = libcellml::Analyser::create();
-    analyser->analyseModel(model);
+    if (f[2][0] != 'I') {
+        analyser->analyseModel(model);
+    }
     auto am = analyser->model();
     if (am == nullptr) {
         return "NOANALYSERMODEL";
